@@ -82,6 +82,7 @@ mixv = F("mixv", Val, Val, Val)     # value-level merge of two dict nodes
 single = F("single", Key, Val, Opt)  # set_dotted_key(k, v, {})
 sub = F("sub", Opt, Opt, B)          # pruning order
 shadow = F("shadow", Opt, Key, B)
+noshadow = F("noshadow", Opt, Opt, B)   # no key of the second dictionary is shadowed by a scalar of the first
 resolve_ok = F("resolve_ok", Val, Opt, B)
 resolve_val = F("resolve_val", Val, Opt, Val)
 resolve_exc = F("resolve_exc", Val, Opt, Exc)
@@ -250,6 +251,7 @@ assume("OptTheory.get_dotted_key", "get_dotted_key(k,o) returns get(o,k) if has(
        "prefix of k holds a scalar (blocked) in which case it raises TypeError; dotted_key_exists likewise")
 assume("OptTheory.mix", "confectioner.mix(a,b) is pure; has(mix(a,b),k) <=> has(b,k) or (has(a,k) and not shadow(b,k)); "
        "get(mix(a,b),k) = get(b,k) when present in b and not both dicts; = get(a,k) when absent from b and unshadowed")
+assume("OptTheory.mix.sub", "sub(o2,o) => sub(mix(o2,P), mix(o,P)); and sub(mix(D,o2), mix(D,o)) when no scalar of o shadows a key of D")
 assume("OptTheory.set_dotted_key", "set_dotted_key(k,v,{}) yields the singleton tree single(k,v)")
 assume("OptTheory.resolve", "confectioner.resolve(v,o): template-free values are returned unchanged; otherwise KeyError(k)/TypeError "
        "for the first unresolvable referenced key, else a value depending on o only through the subtrees at RD(v,o)")
@@ -318,6 +320,13 @@ def opt_axioms():
     ax.append(z3.ForAll([a, b, k], z3.Implies(z3.And(has(a, k), z3.Not(has(b, k)), z3.Not(shadow(b, k))),
                                               isdict(get(mix(a, b), k)) == isdict(get(a, k))),
                         patterns=[get(mix(a, b), k)]))
+    # pruning is preserved by overlaying the same pre-set dictionary (forced options win) ...
+    ax.append(z3.ForAll([o2, o, b], z3.Implies(sub(o2, o), sub(mix(o2, b), mix(o, b))), patterns=[z3.MultiPattern(sub(o2, o), mix(o2, b), mix(o, b))]))
+    # ... and by underlaying defaults, unless a scalar of the caller's dictionary shadows a default section (noshadow: finding F24)
+    ax.append(z3.ForAll([o2, o, a], z3.Implies(z3.And(sub(o2, o), noshadow(o, a)), sub(mix(a, o2), mix(a, o))),
+                        patterns=[z3.MultiPattern(sub(o2, o), mix(a, o2), mix(a, o))]))
+    ax.append(z3.ForAll([o, a, k], z3.Implies(z3.And(noshadow(o, a), has(a, k)), z3.Not(shadow(o, k))),
+                        patterns=[z3.MultiPattern(noshadow(o, a), has(a, k))]))
     ax.append(z3.ForAll([a], mix(a, EMPTY) == a, patterns=[mix(a, EMPTY)]))
     ax.append(z3.ForAll([a], mix(EMPTY, a) == a, patterns=[mix(EMPTY, a)]))
     # single
@@ -431,7 +440,9 @@ def law_L5(e, o):
     b = z3.Implies(z3.And(EXok(e, o), z3.Not(none_missing)), z3.Not(VLok(e, o)))
     c = z3.Implies(z3.And(EXok(e, o), z3.Not(VLok(e, o)), missing(VLexc(e, o))),
                    z3.And(z3.IsMember(mkey(VLexc(e, o)), X), z3.Not(has(o, mkey(VLexc(e, o))))))
-    return z3.And(covers, a, c)
+    d = z3.Implies(z3.And(EXok(e, o), z3.Not(KSok(e, o)), missing(KSexc(e, o))),
+                   z3.And(z3.IsMember(mkey(KSexc(e, o)), X), z3.Not(has(o, mkey(KSexc(e, o))))))
+    return z3.And(covers, a, c, d)
 
 
 def law_L5d(e, o):
